@@ -155,11 +155,17 @@ def classify_error(e):
     return type(e).__name__
 
 
-def real_assemble(prog):
-    """-> {"ok": [instr json]} | {"err": kind}, and the Subroutine (or None)"""
+def real_assemble(prog, reserved=()):
+    """-> {"ok": [instr json]} | {"err": kind}, and the Subroutine (or None).
+    `reserved`: (bank, idx) pairs passed as `reserved_registers=` (only when non-empty, so that a
+    tree without the parameter is still usable for everything else)"""
     proto = to_real(prog)
     try:
-        sub = T.assemble_subroutine(proto)
+        if reserved:
+            sub = T.assemble_subroutine(
+                proto, reserved_registers=[O.Register(RegisterName(b), i) for (b, i) in reserved])
+        else:
+            sub = T.assemble_subroutine(proto)
     except Exception as e:  # noqa: BLE001
         return {"err": classify_error(e)}, None
     try:
@@ -542,11 +548,11 @@ def ret_arr_aliases():
     return _RET_ARR_ALIASES
 
 
-def run_source(prog, unit_size=3, max_steps=400):
+def run_source(prog, unit_size=3, max_steps=400, init_regs=None):
     """Direct meaning of a proto program: labels are no-ops, a literal evaluates to itself, a
     branch to L continues after L.  Instruction semantics = the instruction reference (as the
     base Executor implements it).  Returns the final observable state."""
-    regs = {}
+    regs = dict(init_regs or {})
     arrays = {}
     shm_regs = {}
     shm_arrays = {}
@@ -723,11 +729,13 @@ class PlainExecutor(Executor):
         raise Fault(f"At line {prog_counter}: {type(exc).__name__}")
 
 
-def run_real(sub, named_regs, unit_size=3, max_steps=4000):
+def run_real(sub, named_regs, unit_size=3, max_steps=4000, init_regs=None):
     """executes an assembled Subroutine on the real base Executor; final observable state"""
     SharedMemoryManager.reset_memories()
     ex = PlainExecutor(max_steps)
     ex.init_new_application(app_id=0, max_qubits=unit_size)
+    for (b, i), v in (init_regs or {}).items():
+        ex._set_register(0, O.Register(RegisterName(b), i), v)
     status = "halt"
     try:
         list(ex.execute_subroutine(sub))
@@ -796,41 +804,168 @@ def in_scope(prog):
     return True
 
 
-def oracle(prog, unit_size=3):
+def oracle(prog, unit_size=3, reserved=()):
     """None if the assembled program behaves like the source, else a description.  Programs the
     assembler rejects are skipped unless the rejection itself contradicts the statement
-    (a well-formed program with a free register must assemble)."""
+    (a well-formed program with a free register must assemble).  `reserved` registers hold live
+    values of an earlier subroutine: they are given values before both runs and compared after."""
+    reserved = [tuple(r) for r in reserved]
+    res, sub = real_assemble(prog, reserved)
+    if sub is not None:
+        bad = static_oracle(prog, res["ok"], reserved)
+        if bad is not None:
+            return bad
     if not in_scope(prog):
         return None
     labels = [c["l"] for c in prog if "l" in c]
-    res, sub = real_assemble(prog)
     if sub is None:
-        named_r = {r for r in named_registers(prog) if r[0] == 0}
+        named_r = {r for r in named_registers(prog) if r[0] == 0} | {r for r in reserved if r[0] == 0 and 0 <= r[1] < 16}
         need_scratch = max([0] + [count_materialised(c) for c in prog if "m" in c])
         if len(set(labels)) == len(labels) and len(named_r) + need_scratch <= 16 and all(0 <= r[1] < 16 for r in named_r):
             return {"what": "assembler rejects a well-formed program", "error": res}
         return None
-    src = run_source(prog, unit_size)
+    init = {r: 100 + 16 * r[0] + r[1] for r in reserved if 0 <= r[0] < 4 and 0 <= r[1] < 16}
+    src = run_source(prog, unit_size, init_regs=init)
     if src["status"] in ("steps", "resource"):
         return None
-    real = run_real(sub, named_registers(prog), unit_size)
+    watch = sorted(set(named_registers(prog)) | set(init))
+    real = run_real(sub, watch, unit_size, init_regs=init)
     if real["status"] == "steps":
         return None
     diffs = {}
     for k in ("status", "regs", "arrays", "shm_regs", "shm_arrays", "unit"):
         a, b = src[k], real[k]
-        if k == "regs":
-            a = {r: v for r, v in a.items()}
-            b = {r: v for r, v in b.items()}
-        if k == "shm_regs":
-            # only registers the source names can legitimately be returned
-            pass
         if a != b:
             diffs[k] = {"source": _plain(a), "assembled": _plain(b)}
     if diffs:
         return {"what": "assembled subroutine behaves differently from the source program", "diff": diffs,
-                "assembled": res.get("ok")}
+                "assembled": res.get("ok"), "reserved": [list(r) for r in reserved]}
     return None
+
+
+# ---------------------------------------------------------------- static oracle (no execution)
+
+_CLS_MN = None
+
+
+def _class_mnemonics():
+    global _CLS_MN, _SHAPES
+    if _CLS_MN is None:
+        from translate import instr_table as IT
+
+        _, _, fl = IT._imports()
+        _CLS_MN = {}
+        for c in list(fl.CORE_INSTRUCTIONS) + list(VanillaFlavour().instrs):
+            _CLS_MN[c.__module__.split(".")[-1] + "." + c.__name__] = c.mnemonic
+    if _SHAPES is None:
+        _SHAPES = vanilla_shapes()
+    return _CLS_MN, _SHAPES
+
+
+def static_oracle(prog, assembled, reserved=()):
+    """The statement read on the assembler OUTPUT alone, for any vanilla instruction (also those
+    that are never executed here, e.g. `wait_all @a[R1:R2]`):
+      * the output is, in source order, one block per source instruction: the `set`s that
+        materialise its literals (every literal that is not an immediate of the instruction,
+        and every literal inside brackets), then the instruction itself — nothing dropped,
+        duplicated or reordered;
+      * every register written by an inserted `set` is an R register that the source program
+        names nowhere (top level, entry index, slice start/stop) and that is not reserved, and
+        the scratch registers of one instruction are distinct;
+      * the operands are the source operands with exactly these literals replaced by their
+        scratch registers, and every label replaced by the position of the block that follows it.
+    Returns None or a description."""
+    cls_mn, shapes = _class_mnemonics()
+    named = set(named_registers(prog)) | {tuple(r) for r in reserved}
+    # first pass: block layout from the source alone
+    layout = []  # (command, [(pos, sub, value)], start)
+    labels = {}
+    pending = []
+    pos = 0
+    for c in prog:
+        if "l" in c:
+            pending.append(c["l"])
+            continue
+        shape = shapes.get(c["m"])
+        if shape is None:
+            return None
+        ops = [{"i": a} for a in c["a"]] + c["o"]
+        if len(ops) != len(shape):
+            return {"what": "assembler accepts an instruction with a wrong number of operands", "command": c}
+        lits = []
+        for j, (k, o) in enumerate(zip(shape, ops)):
+            if "i" in o and k == "reg":
+                lits.append((j, None, o["i"]))
+            elif "e" in o and "i" in o["e"][1]:
+                lits.append((j, 0, o["e"][1]["i"]))
+            elif "s" in o:
+                for sub_i in (0, 1):
+                    if "i" in o["s"][1 + sub_i]:
+                        lits.append((j, sub_i, o["s"][1 + sub_i]["i"]))
+        for lab in pending:
+            labels.setdefault(lab, pos)
+        pending = []
+        layout.append((c, ops, lits, pos))
+        pos += len(lits) + 1
+    for lab in pending:
+        labels.setdefault(lab, pos)
+    if pos != len(assembled):
+        return {"what": "source instructions dropped, duplicated or reordered (static)",
+                "expected_length": pos, "assembled": assembled}
+    for c, ops, lits, start in layout:
+        sets = assembled[start:start + len(lits)]
+        img = assembled[start + len(lits)]
+        scratch = []
+        for (j, sub_i, v), st in zip(lits, sets):
+            if st["c"] != "core.SetInstruction" or st["o"][1] != {"i": v} or "r" not in st["o"][0]:
+                return {"what": "source instructions dropped, duplicated or reordered (static)",
+                        "command": c, "found": st, "assembled": assembled}
+            d = tuple(st["o"][0]["r"])
+            if d in named or d[0] != 0 or d in scratch:
+                why = ("reserved" if d in {tuple(r) for r in reserved} else
+                       "named by the source program" if d in named else "not a fresh R register")
+                return {"what": "a literal is materialised in a register that is " + why + " (static)",
+                        "register": list(d), "command": c, "assembled": assembled,
+                        "reserved": [list(r) for r in reserved]}
+            scratch.append(d)
+        if cls_mn.get(img["c"]) != c["m"] or len(img["o"]) != len(ops):
+            return {"what": "source instructions dropped, duplicated or reordered (static)",
+                    "command": c, "found": img, "assembled": assembled}
+        sc = {(j, sub_i): d for (j, sub_i, _v), d in zip(lits, scratch)}
+        for j, (o, io) in enumerate(zip(ops, img["o"])):
+            def bracket(ri, sub_i):
+                return list(sc[(j, sub_i)]) if "i" in ri else list(ri["r"])
+            if "i" in o:
+                want = {"r": list(sc[(j, None)])} if (j, None) in sc else {"i": o["i"]}
+            elif "lab" in o:
+                want = {"i": labels.get(o["lab"])}
+            elif "e" in o:
+                want = {"e": [o["e"][0]] + bracket(o["e"][1], 0)}
+            elif "s" in o:
+                want = {"s": [o["s"][0]] + bracket(o["s"][1], 0) + bracket(o["s"][2], 1)}
+            else:
+                want = o
+            if io != want:
+                what = ("a branch does not land on the instruction that followed its label (static)" if "lab" in o
+                        else "an operand is not the source operand with its literals materialised (static)")
+                return {"what": what, "command": c, "position": j, "expected": want, "found": io,
+                        "assembled": assembled}
+    return None
+
+
+def gen_reserved(rng, prog):
+    """registers an earlier subroutine left live: mostly R registers the program does not name"""
+    r = rng.random()
+    if r < 0.45:
+        return []
+    k = rng.choice([1, 1, 2, 3, 5, 8, 12, 15])
+    out = set()
+    for _ in range(k):
+        if rng.random() < 0.9:
+            out.add((0, rng.randrange(16)))
+        else:
+            out.add((rng.randrange(1, 4), rng.randrange(16)))
+    return sorted(out)
 
 
 EXC_POS = None
